@@ -162,10 +162,22 @@ def floatexp_case(draw: Any) -> dict[str, Any]:
 
 
 @st.composite
+def foreignbase_case(draw: Any) -> dict[str, Any]:
+    """A quantity whose dimension has a base outside the seven SI base dimensions (information: bit, byte, exported by
+    symplyphysics.units): dropping or adding that base is an inequivalent conversion and must be refused; bit <-> byte is
+    an equivalent one with the factor 8."""
+    return {"kind": "foreignbase", "info": draw(st.sampled_from(["bit", "byte"])), "iexp": draw(st.sampled_from([1, 1, -1, 2])),
+        "unit": draw(st.sampled_from(sorted(MU.TABLE))), "uexp": draw(st.sampled_from([-1, 0, 1, 1])),
+        "num": draw(st.integers(2, 999)), "mode": draw(st.sampled_from(["drop", "add", "float", "same"]))}
+
+
+@st.composite
 def case_strategy(draw: Any) -> dict[str, Any]:
-    kind = draw(st.sampled_from(["conv"] * 12 + ["eval"] * 5 + ["celsius"] * 3 + ["floatexp"] * 2))
+    kind = draw(st.sampled_from(["conv"] * 12 + ["eval"] * 5 + ["celsius"] * 3 + ["floatexp"] * 2 + ["foreignbase"] * 2))
     if kind == "floatexp":
         return draw(floatexp_case())
+    if kind == "foreignbase":
+        return draw(foreignbase_case())
     if kind == "conv":
         return draw(conv_case())
     if kind == "eval":
@@ -670,8 +682,59 @@ def judge_floatexp(case: dict[str, Any]) -> tuple[list[tuple[str, str]], list[st
     return out, labels
 
 
+def judge_foreignbase(case: dict[str, Any]) -> tuple[list[tuple[str, str]], list[str]]:
+    import sympy
+    from sympy.physics import units as su
+    from symplyphysics import Quantity, convert_to, convert_to_float
+    out: list[tuple[str, str]] = []
+    info = getattr(su, case["info"])
+    other = su.byte if case["info"] == "bit" else su.bit
+    u = MU.lib_unit(case["unit"])**case["uexp"] if case["uexp"] else sympy.S.One
+    mode = case["mode"]
+    labels = ["foreignbase:" + mode]
+    with_info = case["num"] * info**case["iexp"] * u
+    without = case["num"] * u
+    udesc = f"{case['unit']}**{case['uexp']}" if case["uexp"] else "1"
+    try:
+        if mode == "drop":
+            call = f"convert_to(Quantity({case['num']}*{case['info']}**{case['iexp']}*{udesc}), {udesc})"
+            q = Quantity(with_info)
+            n = convert_to(q, u)
+        elif mode == "add":
+            call = f"convert_to(Quantity({case['num']}*{udesc}), {case['info']}**{case['iexp']}*{udesc})"
+            q = Quantity(without)
+            n = convert_to(q, info**case["iexp"] * u)
+        elif mode == "float":
+            call = f"convert_to_float(Quantity({case['num']}*{case['info']}**{case['iexp']}))"
+            q = Quantity(case["num"] * info**case["iexp"])
+            n = convert_to_float(q)
+        else:
+            call = f"convert_to(Quantity({case['num']}*{case['info']}**{case['iexp']}*{udesc}), {other}**{case['iexp']}*{udesc})"
+            q = Quantity(with_info)
+            n = convert_to(q, other**case["iexp"] * u)
+            factor = sympy.Rational(8 if case["info"] == "byte" else sympy.Rational(1, 8))**case["iexp"]
+            want = case["num"] * factor
+            got = sympy.nsimplify(n, rational=True) if MU.exact(case["unit"]) else sympy.sympify(n)
+            if abs(sympy.N(got - want, 30)) > sympy.Float("1e-12") * abs(want):
+                out.append(("convert_to:value:information-units", f"{call} returned {n}, expected {want}"))
+            return out, labels
+        out.append(("convert_to:not-refused:foreign-base-dimension", f"{call} returned {n} although the dimensions differ by a power "
+            f"of the base dimension 'information'"))
+    except Exception as exc:  # pylint: disable=broad-except
+        if mode == "same":
+            out.append(("convert_to:raised:information-units", f"{call} raised {_exc(exc)} for an equivalent target"))
+        elif _refusal(exc):
+            labels.append("refused:" + type(exc).__name__)
+        else:
+            out.append(("convert_to:wrong-exception:" + type(exc).__name__, f"{call} raised {_exc(exc)}"))
+    return out, labels
+
+
 def judge(case: dict[str, Any], excluded: frozenset[str] = frozenset()) -> tuple[list[tuple[str, str]], list[str], bool]:
     kind = case["kind"]
+    if kind == "foreignbase":
+        res, labels = judge_foreignbase(case)
+        return res, labels, True
     if kind == "floatexp":
         res, labels = judge_floatexp(case)
         return res, labels, True
